@@ -201,6 +201,19 @@ func checkC13(c *fw.Ctx) {
 				}
 				ok := admitted(conds)
 				if !ok {
+					// the same three tests in other spellings (operands swapped, != negated, a tagless
+					// switch): read them off the path condition of the store
+					if d, okd := fw.PathConds(read); okd && len(d[b]) > 0 {
+						all := true
+						for _, term := range d[b] {
+							if !admissionTerm(term) {
+								all = false
+							}
+						}
+						ok = all
+					}
+				}
+				if !ok {
 					// a value decided earlier (the result of an expanded helper): every alternative
 					// that is not nil must have been produced under the admission conditions
 					if rows, err := fw.ValueRows(read, st.Val, b); err == nil && len(rows) > 1 {
@@ -314,6 +327,37 @@ func checkC13(c *fw.Ctx) {
 		}
 		if fw.AlwaysNilResult(r.Results[0]) {
 			return nil // `return reject(...)`: a refusal built by a helper that never hands back a request
+		}
+		// a single exit that returns a result variable: one path per incoming value that can be a request
+		if phi, isPhi := r.Results[0].(*ssa.Phi); isPhi {
+			var out []fw.SuccessPath
+			var walk func(p *ssa.Phi, seen map[*ssa.Phi]bool)
+			walk = func(p *ssa.Phi, seen map[*ssa.Phi]bool) {
+				if seen[p] {
+					return
+				}
+				seen[p] = true
+				pb := p.Block()
+				for i, e := range p.Edges {
+					pred := pb.Preds[i]
+					if !reach[pred] || removed[fw.Edge{From: pred, To: pb}] {
+						continue
+					}
+					if cst, isC := e.(*ssa.Const); isC && cst.Value == nil {
+						continue
+					}
+					if fw.AlwaysNilResult(e) {
+						continue
+					}
+					if inner, isInner := e.(*ssa.Phi); isInner {
+						walk(inner, seen)
+						continue
+					}
+					out = append(out, fw.SuccessPath{Ret: r, Via: pred})
+				}
+			}
+			walk(phi, map[*ssa.Phi]bool{})
+			return out
 		}
 		return []fw.SuccessPath{{Ret: r}}
 	}
@@ -708,4 +752,30 @@ func resolveLocalField(v ssa.Value) ssa.Value {
 		v = stored[0]
 	}
 	return v
+}
+
+// admissionTerm: the term establishes that the Content-Type parsed, is application/json and
+// that the body is valid UTF-8 (any operand order, either spelling of the comparisons).
+func admissionTerm(term fw.Term) bool {
+	parsed, isJSON, utf8ok := false, false, false
+	for _, l := range term {
+		a := l.Atom
+		switch {
+		case strings.Contains(a, "mime.ParseMediaType(") && strings.Contains(a, "#2") && strings.Contains(a, "nil"):
+			if strings.Contains(a, " != ") {
+				parsed = !l.Pos
+			} else if strings.Contains(a, " == ") {
+				parsed = l.Pos
+			}
+		case strings.Contains(a, "mime.ParseMediaType(") && strings.Contains(a, "#0") && strings.Contains(a, `"application/json"`):
+			if strings.Contains(a, " != ") {
+				isJSON = !l.Pos
+			} else if strings.Contains(a, " == ") {
+				isJSON = l.Pos
+			}
+		case strings.HasPrefix(a, "unicode/utf8.Valid("):
+			utf8ok = l.Pos
+		}
+	}
+	return parsed && isJSON && utf8ok
 }
